@@ -1,4 +1,5 @@
 import OVM.Refine.Inv
+import OVM.Refine.DeleteFrames
 /-
   C02 — deletion removes exactly the entity's upward closure; survivors are unchanged.
   Proved here:
@@ -63,8 +64,7 @@ theorem deleteCell_deferred (k : Kernel) (c : Nat) (hd : k.deferred = true) :
     (k.deleteCell c).nDelE = k.nDelE ∧ (k.deleteCell c).nDelV = k.nDelV ∧
     (k.deleteCell c).props = k.props := by
   unfold deleteCell deleteCellCore
-  simp only [hd, Bool.not_true, Bool.and_false, Bool.false_eq_true, if_false]
-  split <;> (try split) <;> simp
+  simp [hd]
 
 /-- the surviving cells keep their definitions and their handles in deferred mode -/
 theorem deleteCell_deferred_survivors (k : Kernel) (c x : Nat) (hd : k.deferred = true) (hx : x ≠ c) :
